@@ -53,7 +53,10 @@ def build(d):
 
 
 def _roots_lists(n, k, rng, many):
-    out = [None]
+    out = [None, []]            # (a roots list may be shorter than the number of regions: the remaining regions are free)
+    if k >= 2:
+        out.append([n - 1])
+        out.append([None, 0])
     if k >= 1:
         out.append([0] + [None] * (k - 1))
         out.append([None] * (k - 1) + [n - 1])
@@ -91,7 +94,7 @@ def instances(tier, rng):
                         if tier == "quick" and form == "array1d" and not prim:
                             continue
                         roots_all = _roots_lists(n, k, rng, tier == "thorough")
-                        for ri, roots in enumerate(roots_all if (n <= 4 or tier == "thorough") else roots_all[:2]):
+                        for ri, roots in enumerate(roots_all if (n <= 4 or tier == "thorough") else roots_all[:4]):
                             out.append(dict(name="%s/k%d/ae%d/pr%d/%s/r%d" % (nm, k, ae, prim, form, ri), form=form, n=n, edges=es,
                                             k=k, allow_empty=ae, primitive=prim, roots=roots, labels="vars"))
         if es:
